@@ -31,11 +31,15 @@ CONSTANTS
     Usages,                 \* subset of {"client","server","both","none"}  extended key usage
     ChainLens,              \* subset of {0,1,2}: certificates sent by the client (0 = none)
     Holds,                  \* subset of BOOLEAN: for a replayed on-chain certificate, does the client own the private key
+    OnchainCNs,             \* subset of {"X","Y"}: whose published certificate may be replayed (Y = the other tenant, genuinely)
     \* on-chain certificate classes of (X, s1)
     RegStates, RegKeys, RegWindows, RegUsages,
     RegOthers,              \* subset of BOOLEAN: may (X,s2) and (Y,s1) hold a valid certificate with key k2
     \* request classes
-    Routes, DTokens, GTokens, OTokens, Extras
+    Routes, DTokens, GTokens, OTokens, Extras,
+    \* TLS session resumption
+    Tickets,                \* BOOLEAN: the server issues TLS 1.3 session tickets (crypto/tls default; the code as shipped)
+    Changes, Presents       \* subsets of {"none","revoke"} and {"same","nocert"} (see section 4)
 
 Accounts      == {"X", "Y"}                 \* CN values that are well formed akash account addresses
 SerialUniverse == {"s1", "s2"}
@@ -127,13 +131,24 @@ Call(m, owner, d, g, o) ==
     IF LeaseScoped(m) THEN [m |-> m, owner |-> owner, dseq |-> d, gseq |-> g,   oseq |-> o,   provider |-> "P"]
                       ELSE [m |-> m, owner |-> owner, dseq |-> d, gseq |-> "-", oseq |-> "-", provider |-> "-"]
 
-Served(c, reg, p) ==                                            \* middleware.go + router.go
+\* extra = "badparams": the request's own parameters are malformed (manifest: body is not JSON; events: follow=maybe;
+\* logs: tail=-5; shell: podIndex missing).  The stream routes refuse in requestStreamParams before the handler runs, the
+\* manifest handler before Submit, the shell handler AFTER it has asked the manifest service whether the deployment is active.
+Route(owner, p) ==                                              \* middleware.go + router.go, for a request of `owner`
+    LET d == Denote(p.dseq)  g == Denote(p.gseq)  o == Denote(p.oseq)
+        ms == IF p.extra # "badparams" THEN Calls(p.route)
+              ELSE IF p.route = "shell" THEN <<"IsActive">>
+              ELSE IF p.route \in {"manifest", "events", "logs"} THEN <<>> ELSE Calls(p.route)
+    IN
+    IF p.route = "manifest"
+    THEN IF d = "bad" THEN <<>>                                                    \* 400 from requireDeploymentID
+         ELSE [i \in 1..Len(ms) |-> Call(ms[i], owner, d, "-", "-")]
+    ELSE IF "bad" \in {d, g, o} THEN <<>>                                          \* 400 from requireLeaseID
+    ELSE [i \in 1..Len(ms) |-> Call(ms[i], owner, d, g, o)]
+
+Served(c, reg, p) ==
     IF ~AcceptedAs(c, reg) THEN <<>>                            \* handshake refused, or 401 without a certificate
-    ELSE LET d == Denote(p.dseq)  g == Denote(p.gseq)  o == Denote(p.oseq)  ms == Calls(p.route) IN
-         IF p.route = "manifest"
-         THEN IF d = "bad" THEN <<>> ELSE << Call("Submit", c.cn, d, "-", "-") >>
-         ELSE IF "bad" \in {d, g, o} THEN <<>>                  \* 400 from requireLeaseID
-         ELSE [i \in 1..Len(ms) |-> Call(ms[i], c.cn, d, g, o)]
+    ELSE Route(c.cn, p)
 
 (***************************************************************************************************************)
 (* (3) the input universe                                                                                      *)
@@ -155,10 +170,10 @@ FreshCerts == [cn : CNs, issuer : Issuers, serial : Serials, key : Keys, window 
 
 \* the client replays the very bytes X published (with or without owning the private key): the attributes are
 \* those of the registry entry
-OnchainUniverse == [cn : {"X"}, issuer : {"self"}, serial : SerialUniverse, key : RegKeys \cup {"k2"},
+OnchainUniverse == [cn : OnchainCNs, issuer : {"self"}, serial : SerialUniverse, key : RegKeys \cup {"k2"},
                     window : RegWindows \cup {"ok"}, usage : RegUsages \cup {"client"},
                     chainLen : ChainLens \ {0}, der : {"onchain"}, holds : Holds]
-IsOnchainOf(c, reg) == LET e == Lookup(reg, "X", c.serial) IN
+IsOnchainOf(c, reg) == LET e == Lookup(reg, c.cn, c.serial) IN
                        e.state # "none" /\ c.key = e.key /\ c.window = e.window /\ c.usage = e.usage
 
 CertUniverse == FreshCerts \cup OnchainUniverse \cup {NoCert : n \in ChainLens \cap {0}}
@@ -166,28 +181,55 @@ CertFor(c, reg) == c.der # "onchain" \/ IsOnchainOf(c, reg)      \* c is a certi
 
 DefaultPath == [route |-> "lstatus", dseq |-> "own", gseq |-> "own", oseq |-> "own", extra |-> "none"]
 
-Paths == { [route |-> r, dseq |-> d, gseq |-> g, oseq |-> o, extra |-> x] :
-             r \in Routes \ {"manifest"}, d \in DTokens, g \in GTokens, o \in OTokens, x \in Extras }
-         \cup
-         { [route |-> "manifest", dseq |-> d, gseq |-> "own", oseq |-> "own", extra |-> x] :
-             d \in DTokens, x \in Extras, r \in Routes \cap {"manifest"} }
+HasParams(r) == r \in {"manifest", "events", "logs", "shell"}
+Paths == { p \in [route : Routes, dseq : DTokens, gseq : GTokens, oseq : OTokens, extra : Extras] :
+             /\ p.route = "manifest" => (p.gseq = "own" /\ p.oseq = "own")    \* the deployment route has one id only
+             /\ p.extra = "badparams" => HasParams(p.route) }
 
 \* the scope half varies the URL for a handful of client classes (genuine, forged in each way, none)
-ScopeRegs  == { r \in Regs : /\ r["X/s2"] = None /\ r["Y/s1"] = None
+ScopeRegs  == { r \in Regs : /\ r["X/s2"] = None
+                             /\ r["Y/s1"] # None => r["X/s1"].state = "valid"     \* the other tenant next to a genuine X
                              /\ r["X/s1"].key \in {"-", "k1"} /\ r["X/s1"].window \in {"-", "ok"}
                              /\ r["X/s1"].usage \in {"-", "client"} }
 ScopeCertUniverse == { c \in CertUniverse : \/ c.chainLen = 0
-                                            \/ /\ c.chainLen = 1 /\ c.cn = "X" /\ c.serial = "s1" /\ c.holds
+                                            \/ /\ c.chainLen = 1 /\ c.cn \in {"X", "Y"} /\ c.serial = "s1" /\ c.holds
                                                /\ c.window = "ok" /\ c.usage = "client" }
 
-AuthCases  == { k \in [cert : CertUniverse,      reg : Regs,      path : {DefaultPath}] : CertFor(k.cert, k.reg) }
-ScopeCases == { k \in [cert : ScopeCertUniverse, reg : ScopeRegs, path : Paths]         : CertFor(k.cert, k.reg) }
+AuthCases  == { k \in [kind : {"case"}, cert : CertUniverse,      reg : Regs,      path : {DefaultPath}] : CertFor(k.cert, k.reg) }
+ScopeCases == { k \in [kind : {"case"}, cert : ScopeCertUniverse, reg : ScopeRegs, path : Paths]         : CertFor(k.cert, k.reg) }
 
 Genuine(c, reg) ==      \* the client the gateway exists to serve: replays its own published, usable certificate
     /\ c.der = "onchain" /\ c.holds /\ c.chainLen = 1
     /\ Lookup(reg, c.cn, c.serial).state = "valid" /\ c.window = "ok" /\ PermitsClient(c.usage)
 
 WellFormedPath(p) == "bad" \notin {Denote(p.dseq)} \cup (IF p.route = "manifest" THEN {} ELSE {Denote(p.gseq), Denote(p.oseq)})
+
+(***************************************************************************************************************)
+(* (4) TLS session resumption (crypto/tls, server side; the gateway leaves SessionTicketsDisabled = false).       *)
+(* Every accepted handshake -- with or without a client certificate -- is answered with a session ticket.  A      *)
+(* later connection that offers the ticket is RESUMED: no Certificate message is exchanged, the callback           *)
+(* VerifyPeerCertificate is NOT invoked, the peer certificates of the original connection are restored from the    *)
+(* ticket and requireOwner reads the owner from them.  Nothing the client configures on the second connection      *)
+(* ("same" certificate or "nocert") and nothing that happened to the registry in between ("revoke") matters.       *)
+(* A "resume" case = first connection (cert under reg, default request), change, second connection (path).        *)
+(***************************************************************************************************************)
+ApplyChange(reg, ch) ==
+    IF ch = "revoke" /\ reg["X/s1"].state = "valid" THEN [reg EXCEPT !["X/s1"].state = "revoked"] ELSE reg
+
+Presented(c, present) == IF present = "same" THEN c ELSE NoCert
+
+Resumes(c, reg)       == Tickets /\ TlsAccept(c, reg)           \* a ticket was handed out and is honoured
+Identity2(c, reg, present)      == IF Resumes(c, reg) THEN c ELSE Presented(c, present)
+Tls2(c, reg, ch, present)       == Resumes(c, reg) \/ TlsAccept(Presented(c, present), ApplyChange(reg, ch))
+AcceptedAs2(c, reg, ch, present) ==
+    IF Resumes(c, reg) THEN c.chainLen >= 1                     \* identity restored from the ticket, nothing re-verified
+    ELSE AcceptedAs(Presented(c, present), ApplyChange(reg, ch))
+Served2(c, reg, ch, present, p) ==
+    IF AcceptedAs2(c, reg, ch, present) THEN Route(Identity2(c, reg, present).cn, p) ELSE <<>>
+
+ResumePaths == { p \in Paths : p.route = "lstatus" /\ p.gseq = "own" /\ p.oseq = "own" /\ p.extra # "badparams" }
+ResumeCases == { k \in [kind : {"resume"}, cert : ScopeCertUniverse, reg : ScopeRegs, change : Changes,
+                        present : Presents, path : ResumePaths] : CertFor(k.cert, k.reg) /\ k.reg["Y/s1"] = None }
 
 (***************************************************************************************************************)
 (* THE PROPERTY, parametrised by an outcome.  J1 instantiates it with the outcome the transcribed procedure     *)
@@ -203,5 +245,15 @@ ScopeProp(c, reg, p, accepted, served) == \A i \in 1..Len(served) : accepted /\ 
 \* not vacuous: the genuine client is accepted and, on a well formed URL, served by every call of the route
 CompleteProp(c, reg, p, accepted, served) ==
     Genuine(c, reg) => /\ accepted
-                       /\ WellFormedPath(p) => Len(served) = Len(Calls(p.route))
+                       /\ (WellFormedPath(p) /\ p.extra # "badparams") => Len(served) = Len(Calls(p.route))
+
+(* Resumption.  `resumed` says which proof of possession the second connection rests on: the one given on the       *)
+(* first connection (under the registry of that time) or a fresh one.  Weak reading, the verdict: "currently" is   *)
+(* the moment possession was proven.  Strict reading (RevocationProp, reported as an OBSERVATION, never as a       *)
+(* violation): the certificate must still be valid and unrevoked when the new connection is made.                  *)
+ResumeProp(c, reg, ch, present, resumed, accepted) ==
+    accepted => IF resumed THEN Authenticate(c, reg)
+                           ELSE Authenticate(Presented(c, present), ApplyChange(reg, ch))
+RevocationProp(c, reg, ch, present, resumed, accepted) ==
+    accepted => Authenticate(IF resumed THEN c ELSE Presented(c, present), ApplyChange(reg, ch))
 ================================================================================
